@@ -58,6 +58,8 @@ def strata(pid, rec):
 # thorough tier: the case counts written below are multiplied per property so that each thorough
 # run explores for minutes, not seconds (sizes such as nmax are left alone: values < 50)
 THOROUGH_SCALE = {"default": 20, "C15": 1, "C17": 3, "C19": 2, "C03": 6, "C04": 6, "C14": 6, "C10": 8, "C11": 10, "C18": 10, "C13": 15, "C05": 15}
+# quick tier: same idea, smaller factor (each quick check stays well under a minute)
+QUICK_SCALE = {"default": 16, "C03": 10, "C04": 10, "C15": 2, "C17": 4, "C14": 6, "C19": 3, "C09": 10, "C10": 10, "C18": 10}
 _CUR = {"pid": None}
 
 
@@ -67,7 +69,13 @@ def set_current(pid):
 
 def count(tier, quick, thorough):
     if tier != "thorough":
-        return quick
+        if quick < 50:
+            return quick
+        try:
+            qs = float(os.environ.get("VERIF_QUICK_SCALE", QUICK_SCALE.get(_CUR["pid"], QUICK_SCALE["default"])))
+        except ValueError:
+            qs = QUICK_SCALE["default"]
+        return max(1, int(quick * qs))
     if thorough < 50:
         return thorough
     k = THOROUGH_SCALE.get(_CUR["pid"], THOROUGH_SCALE["default"])
